@@ -11,6 +11,15 @@ use std::time::Duration;
 const MAX_BUFFER_SIZE: usize = 16 * 1024 * 1024;
 const MAX_RECV_SIZE: usize = 16 * 1024 * 1024;
 
+// The module is only registered when the capability is granted, but the grant can be
+// taken back later (VM::set_capabilities): every native re-checks it, like sys.exec* do.
+fn require_net(vm: &VM, operation: &'static str) -> Result<(), RuntimeError> {
+    if !vm.capabilities().allow_net {
+        return Err(vm.runtime_error(RuntimeErrorKind::CapabilityDenied { operation }));
+    }
+    Ok(())
+}
+
 /// Register all net functions in the VM.
 pub fn register(vm: &mut VM) -> Result<StdModuleExports, RuntimeError> {
     let mut all_exports = Vec::new();
@@ -63,6 +72,7 @@ fn net_error(vm: &VM, op: &'static str, msg: String) -> RuntimeError {
 /// connect(host, port) - Connect to a TCP server.
 /// Returns a socket handle.
 fn native_connect(vm: &mut VM, args: &[Value]) -> Result<Value, RuntimeError> {
+    require_net(vm, "net.connect")?;
     let host = get_string(vm, args[0], "net.connect")?;
     let port = get_int(vm, args[1], "net.connect")?;
 
@@ -103,6 +113,7 @@ fn native_connect(vm: &mut VM, args: &[Value]) -> Result<Value, RuntimeError> {
 
 /// udp_bind(host,port) Bind an UDP socket
 fn native_udp_bind(vm: &mut VM, args: &[Value]) -> Result<Value, RuntimeError> {
+    require_net(vm, "net.udp_bind")?;
     let host = get_string(vm, args[0], "net.udp_bind")?.to_string();
     let port = get_int(vm, args[1], "net.udp_bind")?;
 
@@ -131,6 +142,7 @@ fn native_udp_bind(vm: &mut VM, args: &[Value]) -> Result<Value, RuntimeError> {
 /// udp_send_to(handle, data, addr) - send a data to host:port
 /// Returns number of bytes sent
 fn native_udp_send_to(vm: &mut VM, args: &[Value]) -> Result<Value, RuntimeError> {
+    require_net(vm, "net.udp_send_to")?;
     //this function is for sending some data to udp sockett
     let handle = get_handle(vm, args[0], "net.udp_send_to")?;
     let data = get_string(vm, args[1], "net.udp_send_to")?.to_string();
@@ -149,6 +161,7 @@ fn native_udp_send_to(vm: &mut VM, args: &[Value]) -> Result<Value, RuntimeError
 /// udp_recv_from(handle, max), receive some data
 /// returns received data as string
 fn native_udp_recv_from(vm: &mut VM, args: &[Value]) -> Result<Value, RuntimeError> {
+    require_net(vm, "net.udp_recv_from")?;
     let handle = get_handle(vm, args[0], "net.udp_recv_from")?;
     let max = get_int(vm, args[1], "net.udp_recv_from")?;
 
@@ -188,6 +201,7 @@ fn native_udp_recv_from(vm: &mut VM, args: &[Value]) -> Result<Value, RuntimeErr
 
 /// udp_connect is a function that connects to an UDP server
 fn native_udp_connect(vm: &mut VM, args: &[Value]) -> Result<Value, RuntimeError> {
+    require_net(vm, "net.udp_connect")?;
     let handle = get_handle(vm, args[0], "net.udp_connect")?;
     let host = get_string(vm, args[1], "net.udp_connect")?.to_string();
     let port = get_int(vm, args[2], "net.udp_connect")?;
@@ -215,6 +229,7 @@ fn native_udp_connect(vm: &mut VM, args: &[Value]) -> Result<Value, RuntimeError
 /// udp_send(handle, data) - send a data on a udp socket
 /// Returns number of bytes sent.
 fn native_udp_send(vm: &mut VM, args: &[Value]) -> Result<Value, RuntimeError> {
+    require_net(vm, "net.udp_send")?;
     //this function is for sending some data to udp sockett
     let handle = get_handle(vm, args[0], "net.udp_send")?;
     let data = get_string(vm, args[1], "net.udp_send")?.to_string();
@@ -232,6 +247,7 @@ fn native_udp_send(vm: &mut VM, args: &[Value]) -> Result<Value, RuntimeError> {
 /// udp_recv_from(handle, max), receive some data on a connected socket
 /// returns received data as string
 fn native_udp_recv(vm: &mut VM, args: &[Value]) -> Result<Value, RuntimeError> {
+    require_net(vm, "net.udp_recv")?;
     let handle = get_handle(vm, args[0], "net.udp_recv")?;
     let max = get_int(vm, args[1], "net.udp_recv")?;
 
@@ -271,6 +287,7 @@ fn native_udp_recv(vm: &mut VM, args: &[Value]) -> Result<Value, RuntimeError> {
 
 /// udp_set_broadcast(handle, enable)[bool] - enable/disable broadcast on a UDP socket
 fn native_udp_set_broadcast(vm: &mut VM, args: &[Value]) -> Result<Value, RuntimeError> {
+    require_net(vm, "net.udp_set_broadcast")?;
     let handle = get_handle(vm, args[0], "net.udp_set_broadcast")?;
     let enabled = args[1].is_truthy();
 
@@ -284,6 +301,7 @@ fn native_udp_set_broadcast(vm: &mut VM, args: &[Value]) -> Result<Value, Runtim
 // connect_timeout(host, port, ms) - Connect to a TCP server with a custom timeout in milliseconds.
 /// Returns a socket handle, or null on failure.
 fn native_connect_timeout(vm: &mut VM, args: &[Value]) -> Result<Value, RuntimeError> {
+    require_net(vm, "net.connect_timeout")?;
     let host = get_string(vm, args[0], "net.connect_timeout")?;
     let port = get_int(vm, args[1], "net.connect_timeout")?;
     let timeout_ms = get_int(vm, args[2], "net.connect_timeout")?;
@@ -333,6 +351,7 @@ fn native_connect_timeout(vm: &mut VM, args: &[Value]) -> Result<Value, RuntimeE
 /// send(handle, data) - Send data over connection.
 /// Returns number of bytes sent.
 fn native_send(vm: &mut VM, args: &[Value]) -> Result<Value, RuntimeError> {
+    require_net(vm, "net.send")?;
     let handle = get_handle(vm, args[0], "net.send")?;
     let data = get_string(vm, args[1], "net.send")?.to_string();
 
@@ -352,6 +371,7 @@ fn native_send(vm: &mut VM, args: &[Value]) -> Result<Value, RuntimeError> {
 /// recv(handle) - Receive all available data from connection.
 /// Returns received data as string.
 fn native_recv(vm: &mut VM, args: &[Value]) -> Result<Value, RuntimeError> {
+    require_net(vm, "net.recv")?;
     let handle = get_handle(vm, args[0], "net.recv")?;
 
     if let Some(Resource::TcpStream(res)) = vm.get_resource_mut(handle) {
@@ -395,6 +415,7 @@ fn native_recv(vm: &mut VM, args: &[Value]) -> Result<Value, RuntimeError> {
 
 /// recv_bytes(handle, max) - Receive up to max bytes.
 fn native_recv_bytes(vm: &mut VM, args: &[Value]) -> Result<Value, RuntimeError> {
+    require_net(vm, "net.recv_bytes")?;
     let handle = get_handle(vm, args[0], "net.recv_bytes")?;
     let max = get_int(vm, args[1], "net.recv_bytes")?;
 
@@ -434,6 +455,7 @@ fn native_recv_bytes(vm: &mut VM, args: &[Value]) -> Result<Value, RuntimeError>
 
 /// recv_line(handle) - Receive a single line (up to newline).
 fn native_recv_line(vm: &mut VM, args: &[Value]) -> Result<Value, RuntimeError> {
+    require_net(vm, "net.recv_line")?;
     let handle = get_handle(vm, args[0], "net.recv_line")?;
 
     if let Some(Resource::TcpStream(res)) = vm.get_resource_mut(handle) {
@@ -466,6 +488,7 @@ fn native_recv_line(vm: &mut VM, args: &[Value]) -> Result<Value, RuntimeError> 
 
 /// close(handle) - Close a socket or listener.
 fn native_close(vm: &mut VM, args: &[Value]) -> Result<Value, RuntimeError> {
+    require_net(vm, "net.close")?;
     let handle = get_handle(vm, args[0], "net.close")?;
 
     match vm.take_resource(handle) {
@@ -484,6 +507,7 @@ fn native_close(vm: &mut VM, args: &[Value]) -> Result<Value, RuntimeError> {
 /// listen(host, port) - Start listening for connections.
 /// Returns a listener handle.
 fn native_listen(vm: &mut VM, args: &[Value]) -> Result<Value, RuntimeError> {
+    require_net(vm, "net.listen")?;
     let host = get_string(vm, args[0], "net.listen")?;
     let port = get_int(vm, args[1], "net.listen")?;
 
@@ -508,6 +532,7 @@ fn native_listen(vm: &mut VM, args: &[Value]) -> Result<Value, RuntimeError> {
 /// accept(handle) - Accept an incoming connection.
 /// Returns a socket handle for the new connection.
 fn native_accept(vm: &mut VM, args: &[Value]) -> Result<Value, RuntimeError> {
+    require_net(vm, "net.accept")?;
     let handle = get_handle(vm, args[0], "net.accept")?;
 
     // We need to get the listener, accept, then store the new stream
@@ -532,6 +557,7 @@ fn native_accept(vm: &mut VM, args: &[Value]) -> Result<Value, RuntimeError> {
 /// set_timeout(handle, ms) - Set read/write timeout in milliseconds.
 /// Use 0 to disable timeout.
 fn native_set_timeout(vm: &mut VM, args: &[Value]) -> Result<Value, RuntimeError> {
+    require_net(vm, "net.set_timeout")?;
     let handle = get_handle(vm, args[0], "net.set_timeout")?;
     let ms = get_int(vm, args[1], "net.set_timeout")?;
 
@@ -566,6 +592,7 @@ fn native_set_timeout(vm: &mut VM, args: &[Value]) -> Result<Value, RuntimeError
 
 /// set_nodelay(handle, enabled) - Enable/disable Nagle's algorithm.
 fn native_set_nodelay(vm: &mut VM, args: &[Value]) -> Result<Value, RuntimeError> {
+    require_net(vm, "net.set_nodelay")?;
     let handle = get_handle(vm, args[0], "net.set_nodelay")?;
     let enabled = args[1].is_truthy();
 
@@ -579,6 +606,7 @@ fn native_set_nodelay(vm: &mut VM, args: &[Value]) -> Result<Value, RuntimeError
 
 /// local_addr(handle) - Get local address as "host:port".
 fn native_local_addr(vm: &mut VM, args: &[Value]) -> Result<Value, RuntimeError> {
+    require_net(vm, "net.local_addr")?;
     let handle = get_handle(vm, args[0], "net.local_addr")?;
 
     let addr = match vm.get_resource(handle) {
@@ -596,6 +624,7 @@ fn native_local_addr(vm: &mut VM, args: &[Value]) -> Result<Value, RuntimeError>
 
 /// peer_addr(handle) - Get peer address as "host:port".
 fn native_peer_addr(vm: &mut VM, args: &[Value]) -> Result<Value, RuntimeError> {
+    require_net(vm, "net.peer_addr")?;
     let handle = get_handle(vm, args[0], "net.peer_addr")?;
 
     if let Some(Resource::TcpStream(res)) = vm.get_resource(handle) {
@@ -611,6 +640,7 @@ fn native_peer_addr(vm: &mut VM, args: &[Value]) -> Result<Value, RuntimeError> 
 /// shutdown(handle, how) - Shutdown part of a connection.
 /// how: "read", "write", or "both"
 fn native_shutdown(vm: &mut VM, args: &[Value]) -> Result<Value, RuntimeError> {
+    require_net(vm, "net.shutdown")?;
     let handle = get_handle(vm, args[0], "net.shutdown")?;
     let how_str = get_string(vm, args[1], "net.shutdown")?;
 
